@@ -42,7 +42,7 @@ class SimultaneousScheduler(Scheduler):
         if progress_widget:
             progress_widget.value = self.progress
 
-        for sim_round in range(model.starttime, model.stoptime + 1):
+        for sim_round in range(int(model.starttime), int(model.stoptime) + 1):
 
             if self.running:
                 for step in range(round(1 / model.dt)):
